@@ -16,10 +16,14 @@ _encoders = {}
 
 def resolve(type_name):
     sid, obj = type_name.split(".", 1)
-    if sid not in _mods:
-        _mods[sid] = importlib.import_module(sid + ".models.pk")
-        _encoders[sid] = importlib.import_module(sid + ".cog.encoder").JSONEncoder
-    return getattr(_mods[sid], obj), _encoders[sid]
+    pkg = "pk"
+    key = sid
+    if "/" in sid:  # "<sid>/<package>.<Object>": a package other than the default one
+        sid, pkg = sid.split("/", 1)
+    if key not in _mods:
+        _mods[key] = importlib.import_module(sid + ".models." + pkg)
+        _encoders[key] = importlib.import_module(sid + ".cog.encoder").JSONEncoder
+    return getattr(_mods[key], obj), _encoders[key]
 
 
 def norm(name):
